@@ -23,6 +23,8 @@ PROJECTS = {
     'reexport_root_module': [('ra', 'import rb\n', False), ('rb', 'x = 1\n', False), ('rc', 'from ra import rb\n__all__ = ["rb"]\n', False)],
     'reexport_same_name_as_module': [('s', 'from .s import s, f\n__all__ = ["s", "f"]\n', True),
                                      ('s.s', 'class s:\n    def f(): pass\ndef f(): pass\n', False)],
+    'reexport_module': [('rm', 'from . import mod as module\n__all__ = ("module",)\n', True), ('rm.mod', 'def f(): pass\n', False),
+                        ('rm.plain', 'from rm import other\n__all__ = ["other"]\n', False), ('rm.other', 'class O:\n    def m(self): pass\n', False)],
     'dups': [('d', 'def f(): pass\ndef f(): pass\nclass K:\n    def meth(self): pass\nclass K:\n    def other(self): pass\n'
                    'class C:\n    def m(self): pass\n    def m(self): pass\n', False)],
     'dups_nested': [('dn', 'class C:\n    def m(self): pass\n    def m(self): pass\nclass C:\n    def z(self): pass\n', False)],
